@@ -555,6 +555,28 @@ func (g *c10Gen) genQueries() {
 	g.emitQ("-", false, "-", "a = 1")
 	g.emitQ("-", false, "_", "true")
 	g.emitQ(c10RootSchema, false, "-", "n = 5")
+	// the simplest sentence shapes (one comparison, possibly with surrounding blanks) with near-valid string
+	// literals: raw control characters, unknown escapes, wrong or missing delimiters, characters next to the
+	// closing quote.  A front end that recognises "simple" filters without the lexer sees exactly these.
+	hostile := []string{"\"he\tllo\"", "\"he\nllo\"", "\"he\rllo\"", "\"\x00\"", "\"a\x01b\"", "\"\x1f\"", "\"\x7f\"", "\"a\\qb\"", "\"a\\\"",
+		"\"a\\u0041\"", "\"\\/\"", "\"\\b\"", "'x'", "\"x", "x\"", "\"x\"\"", "\"x\"y", "\"x\" \"y\"", "\"\u2028\"", "\"\u0085\"", "\"x\"\x00", "\"\"\"",
+		"\"a\tb\\n\"", "\"x\"\t", "\"\ufeff\""}
+	for _, id := range []string{"s", "n", "a", "tags.x", "zz", "id", "ss", "kids.s", "'s'", "S"} {
+		for _, op := range []string{"=", "!=", "contains", "<"} {
+			for _, lit := range hostile {
+				for _, form := range []string{"%s %s %s", " %s %s %s ", "%s%s%s", "%s\t%s\n%s\r"} {
+					if strings.Contains(form, "%s%s") && op == "contains" {
+						continue
+					}
+					g.emitQ(c10RootSchema, false, "_", fmt.Sprintf(form, id, op, lit))
+				}
+			}
+		}
+		for _, lit := range hostile {
+			g.emitQ(c10RootSchema, false, "_", fmt.Sprintf("%s in [%s]", id, lit))
+			g.emitQ(c10RootSchema, false, "_", fmt.Sprintf("%s in [\"x\", %s]", id, lit))
+		}
+	}
 	nQ := 8000
 	if thorough {
 		nQ = 250000
